@@ -633,7 +633,7 @@ func TestVerifC16Race(t *testing.T) {
 
 	w.Put(vf.Obs{
 		I: 0, Stream: "race",
-		In:  map[string]any{"generations": gens, "workers": workers, "ms": duration.Milliseconds()},
+		In: map[string]any{"generations": gens, "workers": workers, "ms": duration.Milliseconds()},
 		Out: map[string]any{
 			"seen": seenList, "sets": setList, "window_bad": windowBad, "errors": errs,
 			"reloads": finished.Load(), "tokens": tokens, "window_constrained": constrained, "jwks_fetches": fetches,
